@@ -27,6 +27,29 @@
 namespace celma::container {
 
 
+namespace {
+
+
+/// Returns the size to which the vector must grow to store a bit at the given
+/// position.
+///
+/// @param[in]  pos
+///    The position of the bit to store.
+/// @param[in]  max_size
+///    The maximum size of the vector.
+/// @return  The new size, 1.5 times the needed size.
+/// @throw  std::length_error if the position cannot be stored in the vector.
+size_t grown_size( size_t pos, size_t max_size)
+{
+   if (pos >= max_size)
+      throw std::length_error( "position is too big for a dynamic bitset");
+   return (pos + 1) + (pos + 1) / 2;
+} // grown_size
+
+
+} // namespace
+
+
 
 /// Constructor.
 ///
@@ -192,7 +215,7 @@ DynamicBitset& DynamicBitset::set( size_t pos, bool value)
 {
 
    if (pos >= mData.size())
-      mData.resize( (pos + 1) * 1.5);
+      mData.resize( grown_size( pos, mData.max_size()));
 
    mData[ pos] = value;
 
@@ -224,7 +247,7 @@ DynamicBitset& DynamicBitset::reset( size_t pos)
 {
 
    if (pos >= mData.size())
-      mData.resize( (pos + 1) * 1.5);
+      mData.resize( grown_size( pos, mData.max_size()));
 
    mData[ pos] = false;
 
@@ -256,7 +279,7 @@ DynamicBitset& DynamicBitset::flip( size_t pos)
 {
 
    if (pos >= mData.size())
-      mData.resize( (pos + 1) * 1.5);
+      mData.resize( grown_size( pos, mData.max_size()));
 
    mData[ pos] = !mData[ pos];
 
@@ -369,7 +392,7 @@ DynamicBitset::reference DynamicBitset::operator []( size_t pos) noexcept( true)
 {
 
    if (pos >= mData.size())
-      mData.resize( (pos + 1) * 1.5);
+      mData.resize( grown_size( pos, mData.max_size()));
 
    return mData[ pos];
 } // DynamicBitset::operator []
